@@ -334,4 +334,88 @@ theorem dnsSearch_eq (d : Bytes) : dnsSearch d = .ok (decDnsSearch d) := by
     rw [domainsLoop_eq d (d.length + 1) d.length (2 + 4) (by omega) (by omega) (by omega)]
     cases dnsDomains d.length (List.drop (2 + 4) d) <;> rfl
 
+/-! ### decoders that read through a stream and peek once through `stream.pointer()` -/
+
+/-- `prefix_info_type::from_option`: stream reads, and one raw peek `*stream.pointer()` at the octet the next read consumes -/
+def prefixInfo (d : Bytes) : Out Dec :=
+  if d.length != 30 then pure .malformed else
+    let c := Cursor.ofBytes d
+    match (do
+      let (plen, c) ← c.readU8                                           -- output.prefix_len = stream.read<uint8_t>()
+      let p ← c.peek "prefix_info_type::from_option *stream.pointer()" 0 1   -- output.L = (*stream.pointer() >> 7) & 0x1
+      let (ab, c) ← c.readU8                                             -- output.A = (stream.read<uint8_t>() >> 6) & 0x1
+      let (valid, c) ← c.readBE 4
+      let (pref, c) ← c.readBE 4
+      let (res2, c) ← c.readBE 4
+      let (pfx, _) ← c.read 16                                           -- stream.read<ipaddress_type>()
+      pure s!"{plen}.{ab / 64 % 2}.{byteAt p 0 / 128 % 2}.{valid}.{pref}.{res2}.{hexStr pfx}" : Out String) with
+    | .ok s => pure (.val s)
+    | .throw _ => pure .malformedPkt
+    | .fault s => .fault s
+
+/-- `map_type::from_option` -/
+def mapOpt (d : Bytes) : Out Dec :=
+  if d.length != 2 + 4 + 16 then pure .malformed else
+    let c := Cursor.ofBytes d
+    match (do
+      let p ← c.peek "map_type::from_option *stream.pointer()" 0 1       -- output.dist = (*stream.pointer() >> 4) & 0x0f
+      let (b0, c) ← c.readU8                                             -- output.pref = stream.read<uint8_t>() & 0x0f
+      let (b1, c) ← c.readU8                                             -- output.r = (stream.read<uint8_t>() >> 7) & 0x01
+      let (valid, c) ← c.readBE 4
+      let (addr, _) ← c.read 16
+      pure s!"{byteAt p 0 / 16 % 16}.{b0 % 16}.{b1 / 128 % 2}.{valid}.{hexStr addr}" : Out String) with
+    | .ok s => pure (.val s)
+    | .throw _ => pure .malformedPkt
+    | .fault s => .fault s
+
+theorem read_at (d : Bytes) (k n : Nat) (h : k + n ≤ d.length) :
+    (⟨d.drop k, d.length - k⟩ : Cursor).read n = .ok ((d.drop k).take n, ⟨d.drop (k + n), d.length - (k + n)⟩) := by
+  unfold Cursor.read Cursor.canRead
+  have h1 : n ≤ d.length - k := by omega
+  have h2 : ¬ (d.drop k).length < n := by simp; omega
+  simp only [h1, decide_true, Bool.not_true, Bool.false_eq_true, if_false, h2, List.drop_drop]
+  congr 3
+  omega
+
+theorem readU8_at (d : Bytes) (k : Nat) (h : k + 1 ≤ d.length) :
+    (⟨d.drop k, d.length - k⟩ : Cursor).readU8 = .ok (byteAt d k, ⟨d.drop (k + 1), d.length - (k + 1)⟩) := by
+  unfold Cursor.readU8
+  rw [readBE_at d k 1 h, Raw.drop_cons d k (by omega)]
+  simp [Cursor.beNat, byteAt]
+
+theorem peek1_at (s : String) (d : Bytes) (k : Nat) (h : k + 1 ≤ d.length) :
+    (⟨d.drop k, d.length - k⟩ : Cursor).peek s 0 1 = .ok [d.getD k 0] := by
+  unfold Cursor.peek
+  rw [Raw.rdN_le _ _ 0 1 (by simp; omega), List.drop_zero, Raw.drop_cons d k (by omega)]
+  rfl
+
+theorem ofBytes_at (d : Bytes) : Cursor.ofBytes d = ⟨d.drop 0, d.length - 0⟩ := by simp [Cursor.ofBytes]
+
+theorem prefixInfo_eq (d : Bytes) : prefixInfo d = .ok (decPrefixInfo d) := by
+  unfold prefixInfo decPrefixInfo be32At slice
+  by_cases h : d.length = 30
+  · have hne : (d.length != 30) = false := by simp [h]
+    simp only [hne, Bool.false_eq_true, if_false, ofBytes_at, bind, Out.bind,
+      readU8_at d 0 (by omega), peek1_at _ d (0 + 1) (by omega), readU8_at d (0 + 1) (by omega),
+      readBE_at d (0 + 1 + 1) 4 (by omega), readBE_at d (0 + 1 + 1 + 4) 4 (by omega), readBE_at d (0 + 1 + 1 + 4 + 4) 4 (by omega),
+      read_at d (0 + 1 + 1 + 4 + 4 + 4) 16 (by omega), pure]
+    have e : List.take 16 (List.drop (0 + 1 + 1 + 4 + 4 + 4) d) = List.drop 14 d := by
+      apply List.take_of_length_le; simp; omega
+    simp [e, byteAt]
+  · have hne : (d.length != 30) = true := by simp [h]
+    simp [hne, pure]
+
+theorem mapOpt_eq (d : Bytes) : mapOpt d = .ok (decMap d) := by
+  unfold mapOpt decMap be32At slice
+  by_cases h : d.length = 2 + 4 + 16
+  · have hne : (d.length != 2 + 4 + 16) = false := by simp [h]
+    simp only [hne, Bool.false_eq_true, if_false, ofBytes_at, bind, Out.bind,
+      peek1_at _ d 0 (by omega), readU8_at d 0 (by omega), readU8_at d (0 + 1) (by omega),
+      readBE_at d (0 + 1 + 1) 4 (by omega), read_at d (0 + 1 + 1 + 4) 16 (by omega), pure]
+    have e : List.take 16 (List.drop (0 + 1 + 1 + 4) d) = List.drop 6 d := by
+      apply List.take_of_length_le; simp; omega
+    simp [e, byteAt]
+  · have hne : (d.length != 2 + 4 + 16) = true := by simp [h]
+    simp [hne, pure]
+
 end Tins.Wire.Raw.Icmp6
